@@ -3,13 +3,19 @@
 Every implementation method body of the generated service (unary, stream init, produce, exchange, on_cancel) starts
 with ``prog_runtime.record(...)``; the per-run observer installed through ``prog_runtime.HOOKS`` turns that call into a
 *gate*: the server's connection thread parks there until the controller (the check's main thread) opens the gate.
-The controller lets exactly one un-attributed client action be on its way to the server at any time, so the next new
-server thread that reaches a gate belongs to exactly that client — the connection ↔ client mapping is exact and the
-whole run is a function of the schedule (no sleeps decide anything).
 
-States of a client: unstarted → (starting →) parked ⇄ running → closing → done, or unstarted → queued → parked … when the
-connection is expected to wait for a ``max_connections`` slot.  At most one client is queued at a time (two queued
-connections would be admitted in an order the harness cannot know).
+Connection ↔ client attribution is exact and does not depend on timing: every request of client *i* carries the
+extra argument ``who=i`` (the check adds that parameter to every generated method), and the first method body a
+server connection thread runs is always a unary body or a stream init, whose recorded kwargs contain it.  Later
+bodies of the same thread (process / on_cancel) inherit the attribution; a request whose ``who`` differs from the
+thread's client is itself a violation (a request executed on another connection's thread).
+
+States of a client: unstarted → (starting →) parked ⇄ running → closing → done, or unstarted → queued → parked … when
+the connection is predicted to wait for a ``max_connections`` slot.  Several clients may be queued at once; when a
+slot frees the controller waits until as many queued clients as there are free slots reach their first gate — which
+ones is the server's business (recorded in the trace) — and then looks (bounded) for further arrivals that must not
+happen.  The served-at-once invariant is evaluated at *every* gate arrival from the observed facts only: connections
+that have entered a method body and whose client has not begun to close ≤ max_connections.
 """
 
 from __future__ import annotations
@@ -22,6 +28,7 @@ from typing import Any
 
 WATCHDOG_S = 120.0  # harness stall limit (→ exit 2, never a verdict)
 GRACE_S = 0.06  # how long to look for a gate arrival that must NOT happen (only bounds detection power)
+MAX_QUEUED = 3
 
 
 class Stall(Exception):
@@ -34,45 +41,61 @@ class Gates:
         self.m = max_connections
         self.cv = threading.Condition()
         self.state = ["unstarted"] * n_clients
-        self.thread_of: dict[threading.Thread, int] = {}  # server connection thread (object kept alive: idents are reused) -> client index
+        # server connection thread (object kept alive: OS thread idents are reused) -> client index
+        self.thread_of: dict[threading.Thread, int] = {}
         self.open_flag: dict[int, bool] = {}  # client index -> gate may open
-        self.events: list[dict[str, Any]] = []  # every gate arrival, in arrival order (controller-serialised)
+        self.entered: set[int] = set()  # clients whose connection has run (reached) at least one method body
+        self.events: list[dict[str, Any]] = []  # every gate arrival, in arrival order
         self.violations: list[tuple[str, str]] = []
+        self._reported: set[Any] = set()
         self.passthrough = False  # abort / teardown: gates no longer park
-        self.expect_new: int | None = None  # client whose first gate arrival is expected / attributable
         self.max_served = 0
+        self.max_queued = 0
         self.trace: list[str] = []  # human-readable schedule trace
 
     # ------------------------------------------------------------------ server side (connection threads)
 
+    def _violation(self, key: str, what: str, once: Any = None) -> None:
+        if once is not None:
+            if (key, once) in self._reported:
+                return
+            self._reported.add((key, once))
+        self.violations.append((key, what))
+
     def hook(self, ev: dict[str, Any]) -> None:
-        tid = threading.current_thread()
+        th = threading.current_thread()
         with self.cv:
             if self.passthrough:
                 return
-            ci = self.thread_of.get(tid)
+            who = (ev.get("kwargs") or {}).get("who")
+            ci = self.thread_of.get(th)
             if ci is None:
-                ci = self.expect_new
-                if ci is None or ci in self.thread_of.values():
-                    # a connection thread nobody is waiting for: cannot be attributed — report, never park it
-                    self.violations.append(("unattributed_connection_thread", f"gate reached by an unknown server thread: {ev.get('ev')} mid={ev.get('mid')}"))
+                if not isinstance(who, int) or not 0 <= who < self.n or who in self.thread_of.values():
+                    # cannot be attributed — report, never park it
+                    self._violation("unattributed_connection_thread", f"gate reached by an unknown server thread: {ev.get('ev')} mid={ev.get('mid')} who={who!r}")
                     return
-                self.thread_of[tid] = ci
-                self.expect_new = None
-                served_open = [c for c in range(self.n) if c != ci and self.state[c] in ("parked", "running")]
-                self.max_served = max(self.max_served, len(served_open) + 1)
-                if self.m is not None and len(served_open) >= self.m:
-                    self.violations.append(
-                        (
-                            "served_beyond_max_connections",
-                            f"connection of client {ci} reached a method body while {len(served_open)} other connections "
-                            f"(clients {served_open}) were being served and still open; max_connections={self.m}",
-                        )
-                    )
-            elif self.state[ci] != "running":
-                self.violations.append(("gate_from_idle_connection", f"client {ci} is {self.state[ci]} but its connection ran {ev.get('ev')}"))
+                ci = who
+                self.thread_of[th] = ci
+            elif who is not None and who != ci:
+                self._violation(
+                    "request_served_on_wrong_connection",
+                    f"a request of client {who} ({ev.get('ev')} mid={ev.get('mid')}) was executed by the connection thread of client {ci}",
+                )
+            self.entered.add(ci)
+            # the invariant, from observed facts only: connections that entered a body and are not closing
+            served = sorted(c for c in self.entered if self.state[c] not in ("closing", "done") or c == ci)
+            self.max_served = max(self.max_served, len(served))
+            if self.m is not None and len(served) > self.m:
+                self._violation(
+                    "served_beyond_max_connections",
+                    f"connection of client {ci} is in a method body ({ev.get('ev')}) while the connections of clients {served} have all entered "
+                    f"method bodies and none of their clients has begun to close; max_connections={self.m}",
+                    once=tuple(served),
+                )
+            if self.state[ci] not in ("running", "starting", "queued"):
+                self._violation("gate_from_idle_connection", f"client {ci} is {self.state[ci]} but its connection ran {ev.get('ev')}")
             ev["conn"] = ci
-            ev["server_thread"] = id(tid)  # unique: the Thread object is kept in thread_of
+            ev["server_thread"] = id(th)  # unique: the Thread object is kept in thread_of
             self.events.append(dict(ev))
             self.state[ci] = "parked"
             self.open_flag[ci] = False
@@ -112,8 +135,33 @@ class Gates:
                 raise Stall(f"waiting for {what}; states={self.state}")
             self.cv.wait(timeout=left)
 
+    def _look(self, watched: list[int]) -> None:
+        """Bounded look for an arrival that must not happen (a still-queued client reaching a gate).  Under correct
+        code nothing happens, so the schedule does not depend on the length of the look."""
+        end = time.monotonic() + GRACE_S
+        while all(self.state[q] == "queued" for q in watched) and time.monotonic() < end:
+            self.cv.wait(timeout=max(0.0, end - time.monotonic()))
+
     def served_open(self) -> int:
         return sum(1 for s in self.state if s in ("parked", "running"))
+
+    def _admissions(self, why: str) -> None:
+        """A slot may have been freed: wait for exactly as many queued clients as there are free slots."""
+        queued = [i for i, s in enumerate(self.state) if s == "queued"]
+        if not queued:
+            return
+        free = len(queued) if self.m is None else max(0, self.m - self.served_open())
+        expect = min(free, len(queued))
+        if expect:
+            self._wait(
+                lambda: sum(1 for q in queued if self.state[q] != "queued") >= expect,
+                f"{expect} of the queued clients {queued} to be admitted {why}",
+            )
+            got = [q for q in queued if self.state[q] != "queued"]
+            self.trace.append("admit" + "+".join(str(q) for q in got))
+        rest = [q for q in queued if self.state[q] == "queued"]
+        if rest:
+            self._look(rest)
 
     def run(self, start_client: Callable[[int], None], choices: list[int]) -> None:
         """Drive all clients to completion.  ``start_client(i)`` starts client i's thread (connect + script)."""
@@ -123,13 +171,18 @@ class Gates:
                 parked = [i for i, s in enumerate(self.state) if s == "parked"]
                 unstarted = [i for i, s in enumerate(self.state) if s == "unstarted"]
                 queued = [i for i, s in enumerate(self.state) if s == "queued"]
-                can_start = bool(unstarted) and not queued
+                self.max_queued = max(self.max_queued, len(queued))
+                can_start = bool(unstarted) and len(queued) < MAX_QUEUED
                 connected_open = sum(1 for s in self.state if s not in ("unstarted", "done"))
+                # never let the listener see zero connections before the last client has connected
                 must_start = can_start and (not parked or connected_open <= 1)
                 options: list[Any] = (["start"] if can_start else []) + list(parked)
                 if must_start:
                     pick: Any = "start"
                 elif not options:
+                    if queued and (self.m is None or self.served_open() < self.m):
+                        self._admissions("(free slot, nothing else to schedule)")
+                        continue
                     raise Stall(f"nothing to schedule; states={self.state}")
                 else:
                     c = choices[k] if k < len(choices) else k  # past the generated prefix: rotate over the options
@@ -139,7 +192,6 @@ class Gates:
                     ci = unstarted[0]
                     admitted = self.m is None or self.served_open() < self.m
                     self.trace.append(f"start{ci}{'' if admitted else '(queued)'}")
-                    self.expect_new = ci
                     self.state[ci] = "starting" if admitted else "queued"
                     self.cv.release()
                     try:
@@ -149,11 +201,7 @@ class Gates:
                     if admitted:
                         self._wait(lambda ci=ci: self.state[ci] in ("parked", "done"), f"first gate of client {ci}")
                     else:
-                        # must stay queued: look (bounded) for an arrival that would be a violation; under correct
-                        # code nothing can happen here, so the schedule is unaffected by the length of the look
-                        end = time.monotonic() + GRACE_S
-                        while self.state[ci] == "queued" and time.monotonic() < end:
-                            self.cv.wait(timeout=max(0.0, end - time.monotonic()))
+                        self._look([i for i, s in enumerate(self.state) if s == "queued"])
                     continue
                 ci = pick
                 self.trace.append(f"open{ci}")
@@ -161,12 +209,8 @@ class Gates:
                 self.state[ci] = "running"
                 self.cv.notify_all()
                 self._wait(lambda ci=ci: self.state[ci] in ("parked", "done"), f"client {ci} to reach its next gate or finish")
-                if self.state[ci] == "done" and queued:
-                    q = queued[0]
-                    self.trace.append(f"admit{q}")  # logged even if q already got its slot while we were waking up
-                    if self.state[q] == "queued":
-                        self.expect_new = q if q not in self.thread_of.values() else None
-                        self._wait(lambda q=q: self.state[q] in ("parked", "done"), f"queued client {q} to be admitted after client {ci} closed")
+                if self.state[ci] == "done":
+                    self._admissions(f"after client {ci} closed")
 
     def abort(self) -> None:
         with self.cv:
